@@ -44,7 +44,8 @@ Explained(e, M) ==
     [] e.op = "neg" -> GoodM(e, M, Neg(M))
     [] e.op = "add" -> IF SameShape(M, e.b) THEN GoodM(e, M, Add(M, e.b)) ELSE RejectedSize(e)
     [] e.op = "sub" -> IF SameShape(M, e.b) THEN GoodM(e, M, Sub(M, e.b)) ELSE RejectedSize(e)
-    [] e.op = "mul_scalar" -> GoodM(e, M, Scale(M, e.s))
+    [] e.op \in {"mul_scalar", "lmul_scalar"} -> GoodM(e, M, Scale(M, e.s))     \* matrix * s, and s * matrix (f64)
+    [] e.op = "empty" -> ~e.panic /\ SameMat(e.rm, Empty)
     [] e.op = "div_scalar" -> GoodM(e, M, DivS(M, e.s))
     [] e.op = "matmul" -> IF Acc_MatMul(M, e.b) THEN GoodM(e, M, MatMul(M, e.b)) ELSE RejectedSize(e)
     [] e.op = "matvec" -> IF Acc_MatVec(M, e.v) THEN GoodV(e, M, MatVec(M, e.v)) ELSE RejectedSize(e)
